@@ -53,7 +53,7 @@ func setUnexported(field reflect.Value, v interface{}) {
 	reflect.NewAt(field.Type(), unsafe.Pointer(field.UnsafeAddr())).Elem().Set(reflect.ValueOf(v))
 }
 
-func fabricateChain(height uint64, hash wire.Hash, listeners map[blockchain.Listener]struct{}) *blockchain.Blockchain {
+func fabricateChain(height uint64, hash wire.Hash, listeners map[blockchain.Listener]struct{}, db database.Db) *blockchain.Blockchain {
 	bc := &blockchain.Blockchain{}
 	tree := blockchain.NewBlockTree()
 	h := hash
@@ -62,6 +62,11 @@ func fabricateChain(height uint64, hash wire.Hash, listeners map[blockchain.List
 	v := reflect.ValueOf(bc).Elem()
 	setUnexported(v.FieldByName("blockTree"), tree)
 	setUnexported(v.FieldByName("listeners"), listeners)
+	if db != nil {
+		// GetTransactionInDB / GetHeaderByHash of the API handlers read the chain database
+		f := v.FieldByName("db")
+		reflect.NewAt(f.Type(), unsafe.Pointer(f.UnsafeAddr())).Elem().Set(reflect.ValueOf(&db).Elem())
+	}
 	return bc
 }
 
@@ -108,7 +113,7 @@ func (n *Node) SyncManager() *netsync.SyncManager  { return n.sm }
 
 func (n *Node) publishTip() {
 	t := n.Best[len(n.Best)-1]
-	n.tip.Store(fabricateChain(t.Height, t.Hash, n.listeners))
+	n.tip.Store(fabricateChain(t.Height, t.Hash, n.listeners, n.DB))
 }
 
 func (n *Node) Tip() *Block {
